@@ -31,18 +31,18 @@ var corpusFS embed.FS
 // CorpusEntry is one frozen file: the header verbatim (as the pinned tree wrote
 // it), the values that determine the payload, and hashes recorded at freeze time.
 type CorpusEntry struct {
-	Name      string     `json:"name"`
-	Writer    string     `json:"writer"` // "age" (written by the pinned tree) | "ref" (reference encoder) | "upstream" (testdata/example.age)
-	Key       world.Key  `json:"key"`    // an identity that opens it
-	Armor     bool       `json:"armor"`
-	PSeed     uint64     `json:"pseed"`
-	PLen      int        `json:"plen"`
-	HeaderB64 string     `json:"header_b64"` // header bytes incl. MAC line, base64
-	FileKey   string     `json:"file_key"`   // hex
-	Nonce     string     `json:"nonce"`      // hex
-	FileSHA   string     `json:"file_sha256"`
-	PlainSHA  string     `json:"plain_sha256"`
-	Stored    string     `json:"stored,omitempty"` // file name under corpus/ when stored verbatim
+	Name      string        `json:"name"`
+	Writer    string        `json:"writer"` // "age" (written by the pinned tree) | "ref" (reference encoder) | "upstream" (testdata/example.age)
+	Key       world.Key     `json:"key"`    // an identity that opens it
+	Armor     bool          `json:"armor"`
+	PSeed     uint64        `json:"pseed"`
+	PLen      int           `json:"plen"`
+	HeaderB64 string        `json:"header_b64"` // header bytes incl. MAC line, base64
+	FileKey   string        `json:"file_key"`   // hex
+	Nonce     string        `json:"nonce"`      // hex
+	FileSHA   string        `json:"file_sha256"`
+	PlainSHA  string        `json:"plain_sha256"`
+	Stored    string        `json:"stored,omitempty"` // file name under corpus/ when stored verbatim
 	Spec      *lib.FileSpec `json:"spec,omitempty"`
 }
 
@@ -88,8 +88,10 @@ type C05Plan struct {
 
 type C05 struct{}
 
-func (C05) ID() string           { return "C05" }
-func (C05) Title() string        { return "differential refinement against the reference model through the randomness seam, frozen corpus" }
+func (C05) ID() string { return "C05" }
+func (C05) Title() string {
+	return "differential refinement against the reference model through the randomness seam, frozen corpus"
+}
 func (C05) NewPlan() interface{} { return &C05Plan{} }
 func (C05) Runs(tier string) int {
 	if tier == "thorough" {
@@ -100,8 +102,8 @@ func (C05) Runs(tier string) int {
 
 func (C05) Meta() core.Meta {
 	return core.Meta{
-		Level: "exploration",
-		Rule: "enc case = (plaintext, recipient list over all four types + grease, random tape, armor on/off): the library writes the file under the tape; the random values are recovered by role from the file and located on the tape; the reference model must reproduce the file byte for byte from them (ssh-rsa stanzas are opened by a from-the-RFC OAEP decoder instead) and decrypt it with every identity. dec case = the reference encoder writes a file over the same space with its own random values and the library must decrypt it with every identity to the exact plaintext. corpus case = one frozen file (written by the pinned tree / the reference; the 12 upstream CCTV success vectors are replayed as well; all types x armored/binary x |P| in {0,1,65535,65536,65537,131072}) must still have its recorded hash and decrypt to its recorded plaintext. big case = a 257-chunk file in both directions (counter carry into the second byte). Non-trivial = every case; distinct = distinct (mode, file skeleton, tape).",
+		Level:       "exploration",
+		Rule:        "enc case = (plaintext, recipient list over all four types + grease, random tape, armor on/off): the library writes the file under the tape; the random values are recovered by role from the file and located on the tape; the reference model must reproduce the file byte for byte from them (ssh-rsa stanzas are opened by a from-the-RFC OAEP decoder instead) and decrypt it with every identity. dec case = the reference encoder writes a file over the same space with its own random values and the library must decrypt it with every identity to the exact plaintext. corpus case = one frozen file (written by the pinned tree / the reference; the 12 upstream CCTV success vectors are replayed as well; all types x armored/binary x |P| in {0,1,65535,65536,65537,131072}) must still have its recorded hash and decrypt to its recorded plaintext. big case = a 257-chunk file in both directions (counter carry into the second byte). Non-trivial = every case; distinct = distinct (mode, file skeleton, tape).",
 		Assumptions: []string{"the reference model (validated against the 114 CCTV vectors and testdata/example.age) is the specification", "chunk counters above 2^16 (4 GiB files) are out of reach"},
 		Real:        []string{"filippo.io/age Encrypt/Decrypt", "all four recipient/identity types", "armor", "internal/stream", "internal/format"},
 		Stub:        []string{"crypto/rand.Reader (tape)", "destination recorder", "reference encoder/decoder (sim/ref)"},
